@@ -415,10 +415,73 @@ fn part_b_case(i: u64, l: &mut Local) {
     }
 }
 
+/// family A-guarded: ABSORB(WRAP^k(DIV)), k = 0..2. DIV is a division that cannot be diagnosed away, WRAP a
+/// context that keeps it alive (constant factor or divisor, sign, block, sum), ABSORB a context whose value does
+/// not depend on the operand (zero factor, absorbing logic constant): the division must survive every rewrite
+fn guarded_division_trees() -> Vec<Exp> {
+    let x = || Exp::Variable("x".into());
+    let y = || Exp::Variable("y".into());
+    let n = |v: f64| Exp::Number(v);
+    let bin = |op: BinOp, a: Exp, b: Exp| Exp::BinOp(op, Box::new(a), Box::new(b));
+    let divs: Vec<Exp> = vec![
+        bin(BinOp::Div, x(), n(0.0)),
+        bin(BinOp::Div, n(1.0), x()),
+        bin(BinOp::Div, x(), y()),
+        bin(BinOp::Div, n(2.0), bin(BinOp::Sub, x(), x())),
+        bin(BinOp::Div, n(0.0), n(0.0)),
+    ];
+    let wraps: Vec<Box<dyn Fn(Exp) -> Exp>> = vec![
+        Box::new(move |e| Exp::BinOp(BinOp::Div, Box::new(e), Box::new(Exp::Number(2.0)))),
+        Box::new(move |e| Exp::BinOp(BinOp::Mul, Box::new(e), Box::new(Exp::Number(0.5)))),
+        Box::new(move |e| Exp::BinOp(BinOp::Mul, Box::new(Exp::Number(2.0)), Box::new(e))),
+        Box::new(move |e| Exp::BinOp(BinOp::Add, Box::new(e), Box::new(Exp::Number(1.0)))),
+        Box::new(move |e| Exp::BinOp(BinOp::Sub, Box::new(Exp::Number(1.0)), Box::new(e))),
+        Box::new(move |e| Exp::UnOp(rooc::UnOp::Neg, Box::new(e))),
+        Box::new(move |e| Exp::Abs(Box::new(e))),
+        Box::new(move |e| Exp::Min(vec![e, Exp::Number(1.0)])),
+        Box::new(move |e| Exp::Max(vec![Exp::Number(1.0), e])),
+        Box::new(move |e| Exp::BinOp(BinOp::Div, Box::new(Exp::BinOp(BinOp::Add, Box::new(e), Box::new(Exp::Number(1.0)))), Box::new(Exp::Number(2.0)))),
+    ];
+    let absorbs: Vec<Box<dyn Fn(Exp) -> Exp>> = vec![
+        Box::new(move |e| Exp::BinOp(BinOp::Mul, Box::new(Exp::Number(0.0)), Box::new(e))),
+        Box::new(move |e| Exp::BinOp(BinOp::Mul, Box::new(e), Box::new(Exp::Number(0.0)))),
+        Box::new(move |e| Exp::BinOp(BinOp::Div, Box::new(Exp::Number(0.0)), Box::new(e))),
+        Box::new(move |e| Exp::Or(vec![Exp::Number(1.0), e])),
+        Box::new(move |e| Exp::Or(vec![e, Exp::Number(1.0)])),
+        Box::new(move |e| Exp::And(vec![Exp::Number(0.0), e])),
+        Box::new(move |e| Exp::And(vec![e, Exp::Number(0.0)])),
+        Box::new(move |e| Exp::Implies(Box::new(Exp::Number(0.0)), Box::new(e))),
+        Box::new(move |e| Exp::Implies(Box::new(e), Box::new(Exp::Number(1.0)))),
+        Box::new(move |e| Exp::BinOp(BinOp::Sub, Box::new(e.clone()), Box::new(e))),
+        Box::new(move |e| e),
+    ];
+    let mut out = vec![];
+    for d in &divs {
+        let mut level: Vec<Exp> = vec![d.clone()];
+        let mut all: Vec<Exp> = level.clone();
+        for _ in 0..2 {
+            let mut next = vec![];
+            for e in &level {
+                for w in &wraps {
+                    next.push(w(e.clone()));
+                }
+            }
+            all.extend(next.iter().cloned());
+            level = next;
+        }
+        for e in all {
+            for a in &absorbs {
+                out.push(a(e.clone()));
+            }
+        }
+    }
+    out
+}
+
 pub fn run(mut run: Run) -> ! {
     crate::core::silence_panics();
     let quick = run.quick();
-    run.rule = "part A: every Exp tree with <= 2 operator nodes over the full leaf alphabet {0,1,-0,2,-1,0.5,x,y,b} and every logic-only tree (not, and, or, xor, implies, iff over b, x, 0, 1, 2) with 3 operator nodes (thorough adds every tree with 3 operator nodes over a reduced alphabet) over every constructor (BinOp x9, UnOp x2, Abs, Not, Xor, Implies, Iff, n-ary And/Or/Min/Max with 0-3 operands) is rewritten with simplify, flatten and both compositions and evaluated at 72 assignments by an exact reference evaluator; part B: 11 model templates (the coefficient multiplies a variable, or a max / abs / min block in the objective or in rows) x 6 constants x 15 spellings of the coefficient (incl. named and API-supplied constants on either side) are compiled and compared; distinct = tree debug text / reference twin source; non-trivial = defined at some assignment / compiles".into();
+    run.rule = "part A: every Exp tree with <= 2 operator nodes over the full leaf alphabet {0,1,-0,2,-1,0.5,x,y,b} and every logic-only tree (not, and, or, xor, implies, iff over b, x, 0, 1, 2) with 3 operator nodes (thorough adds every tree with 3 operator nodes over a reduced alphabet) over every constructor (BinOp x9, UnOp x2, Abs, Not, Xor, Implies, Iff, n-ary And/Or/Min/Max with 0-3 operands) plus 6105 guarded divisions (an undiagnosable division under up to two value-preserving wrappers under a context that absorbs its operand) is rewritten with simplify, flatten and both compositions and evaluated at 72 assignments by an exact reference evaluator; part B: 11 model templates (the coefficient multiplies a variable, or a max / abs / min block in the objective or in rows) x 6 constants x 15 spellings of the coefficient (incl. named and API-supplied constants on either side) are compiled and compared; distinct = tree debug text / reference twin source; non-trivial = defined at some assignment / compiles".into();
     run.assume("reference semantics: strict exact evaluation, truthy iff non-zero, division by zero undefined; a division is 'diagnosable' when its denominator contains a variable or is a constant zero");
     run.assume("twin models compared row for row, else by exact equivalence (same optimum/status for the objective and for +-e_i on every declared variable; auxiliaries may differ in number and naming)");
     let envs = Arc::new(assignments());
@@ -443,6 +506,14 @@ pub fn run(mut run: Run) -> ! {
         let e2 = envs.clone();
         let ts2 = ts.clone();
         run.family("A-logic-trees-size3", ts.len() as u64, move |i, l| {
+            check_tree(&ts2[i as usize], &e2, l);
+        });
+    }
+    {
+        let ts = Arc::new(guarded_division_trees());
+        let e2 = envs.clone();
+        let ts2 = ts.clone();
+        run.family("A-guarded-divisions", ts.len() as u64, move |i, l| {
             check_tree(&ts2[i as usize], &e2, l);
         });
     }
